@@ -233,3 +233,81 @@ impl Monitor for C03L {
         self.truth.update(ctx);
     }
 }
+
+/// C12 on engine L: a routing decision made by the real shell (selector, override, duplicate
+/// probes, batch queueing) leaves the liveness / accounting state of every uplink it did not hand a
+/// datagram to untouched; with the guard off every stall flag is cleared and the choice equals the
+/// real selector's on the same links with their stall history erased.
+#[derive(Default)]
+pub struct C12L;
+
+impl C12L {
+    pub fn new() -> Self {
+        Self
+    }
+}
+
+impl Monitor for C12L {
+    fn wants_full_pre(&self, kind: &StepKind) -> bool {
+        matches!(kind, StepKind::Client(Some(_)))
+    }
+    fn on_step(&mut self, ctx: &StepCtx<'_>, out: &mut MonOut) {
+        let Some((pre, bytes)) = decision(ctx) else { return };
+        // the trailing drain of the same step handles uplink datagrams, which do change accounting
+        if !ctx.uplink.is_empty() || pre.len() != ctx.world.conns.len() {
+            return;
+        }
+        out.stats.inc("c12l.decisions");
+        let got_something = |i: usize| {
+            let (p, m) = (&ctx.pre[i], &ctx.mid[i]);
+            m.queued != p.queued || ctx.wire.iter().any(|w| Some(w.fd) == p.fd)
+        };
+        for (i, (a, b)) in pre.iter().zip(ctx.world.conns.iter()).enumerate() {
+            if a.conn_id != b.conn_id || got_something(i) {
+                continue;
+            }
+            let (pa, pb) = (crate::ksim::sel::accounting_projection(a), crate::ksim::sel::accounting_projection(b));
+            if pa != pb {
+                out.violate(
+                    "C12.state_touched",
+                    "shell",
+                    ctx.idx,
+                    format!("a routing decision changed liveness/accounting state of link {i}, which was handed nothing:\n before {pa}\n after  {pb}"),
+                );
+            }
+            let (va, vb) = (a.verif_private(), b.verif_private());
+            if va.stall_gated != vb.stall_gated || va.silence_pulled != vb.silence_pulled || va.stall_latched_since_ms != vb.stall_latched_since_ms {
+                out.probe("c12l.guard_state_moved");
+            }
+        }
+        if !ctx.cfg.stall_deselect {
+            out.probe("c12l.guard_off_decision");
+            for (i, b) in ctx.world.conns.iter().enumerate() {
+                let p = b.verif_private();
+                if p.stall_gated || p.silence_pulled || p.stall_latched_since_ms != 0 || p.stall_recovery_since_ms != 0 {
+                    out.violate("C12.guard_off", "flags_shell", ctx.idx, format!("guard off but link {i} keeps stall state {p:?}"));
+                }
+            }
+            let must_land = data_seq(bytes).is_some() && (ctx.critical_pre || is_rexmit(bytes));
+            let placed = (0..pre.len()).any(got_something);
+            if !must_land && placed {
+                if pre.iter().any(|c| c.last_ack_or_rtt_sample_ms != 0 || c.verif_private().stall_gate_events != 0) {
+                    out.probe("c12l.guard_off_with_history");
+                }
+                let mut clean: Vec<SrtlaConnection> = pre.to_vec();
+                for c in clean.iter_mut() {
+                    c.verif_clear_stall_history();
+                }
+                let baseline = srtla_core::selection::select_connection_idx(&mut clean, ctx.last_selected_pre, ctx.now, &ctx.cfg);
+                if baseline != ctx.world.last_selected_idx {
+                    out.violate(
+                        "C12.guard_off",
+                        "decision_shell",
+                        ctx.idx,
+                        format!("guard off: the shell routed to {:?}, the selector on the same links without stall history picks {:?}", ctx.world.last_selected_idx, baseline),
+                    );
+                }
+            }
+        }
+    }
+}
